@@ -6,7 +6,17 @@ Domain (enumerated every run, nothing sampled at the type level):
     x shape of the actual expression {variable; and, as a secondary dimension, call result,
     unary plus, conditional expression, tuple subscript};
   * operator cells: every arithmetic / comparison / bitwise operator x all 9 (left, right) operand
-    type pairs (= left and right operand position of each (A, E) pair).
+    type pairs (= left and right operand position of each (A, E) pair);
+  * sequence cells: ONE function body that performs two widenings one after the other, all 3 x 3
+    ordered pairs of strict widenings (nat->int, nat->float, int->float) x context of each step
+    {annotated assignment, call argument, operator operand `v + 0` / `v + 0.0`}; both converted
+    values come back (as a tuple) and are judged - a conversion must not depend on which other
+    conversions the same body contains;
+  * array-literal cells: `array(a, b)` with all 9 element type pairs used where an array with
+    element type E is expected, E over nat/int/float x context {annotated assignment to
+    `array[E, 2]`, argument of `def f(xs: array[E, 2])`, argument of a function generic in the
+    element type whose result is returned as E directly / through a variable}; both elements are
+    read back.
 Values (Hypothesis + a fixed boundary core, per cell): boundaries 0, 1, 2^53+-1, 2^63-1, 2^63,
 2^64-1 (nat), +-2^53+-1, +-(2^63-1), -2^63 (int), float ties, and random magnitudes; they reach the
 cell's function as *runtime* values (elements of arrays indexed by a loop variable) so nothing is
@@ -17,6 +27,12 @@ Oracle (from the property statement, not from the implementation): with nat < in
     must be rejected with a user error in every shape; the observed value of an accepted
     conversion equals the original (int/nat targets exactly, float targets CPython `float(v)` =
     round-to-nearest-even); nat >= 2^63 -> int is not representable: labelled, value not judged;
+  * sequence cells: accepted (each step alone is a judged variable widening), each of the two
+    values equals the original converted as above;
+  * array-literal cells: a cell accepted although an element's type is wider than the type E the
+    element comes back as narrows implicitly -> violation; same-type cells must be accepted; other
+    rejections are observations; values of accepted cells equal the originals converted to E
+    (nat >= 2^63 next to an int in an inferred element type is not representable on the way);
   * operators: accepted for every pair Python's numeric tower accepts (bitwise ops with a float
     operand are rejected by Python), result type the wider one (bool for comparisons, float for
     `/`), value = CPython's operator on the operands after converting the narrower one.
@@ -66,6 +82,13 @@ INT_B = [0, 1, -1, 2, -2, F53 - 1, F53 + 1, F53 + 3, -(F53 - 1), -(F53 + 1), -(F
 FLOAT_B = [0.0, -0.0, 1.0, -1.0, 0.5, 2.5, -7.5, 0.1, 1e10, -3.25, 2.0 ** 53, 2.0 ** 63, 2.0 ** 64, -(2.0 ** 63),
            9007199254740994.0, 1e300, 5e-324]
 BOUND = {"nat": set(NAT_B), "int": set(INT_B)}
+BOUNDARY = {"nat": NAT_B, "int": INT_B, "float": FLOAT_B}
+WIDEN = [("nat", "int"), ("nat", "float"), ("int", "float")]
+STEPS = {"assign": "    {x}: {E} = {v}\n", "arg": "    {x} = id_{E}({v})\n", "op": "    {x} = {v} + {z}\n"}
+ARR_CTXS = {"assign": "    xs: array[{E}, 2] = array(a, b)\n    return xs[k]\n",
+            "arg": "    return take_{E}(array(a, b), k)\n",
+            "gen_ret": "    return pick_elem(array(a, b), k)\n",
+            "gen_bound": "    y = pick_elem(array(a, b), k)\n    return y\n"}
 
 
 # ----------------------------------------------------------------------------- cells
@@ -75,16 +98,38 @@ def all_cells():
         cells.append({"t": "conv", "ctx": ctx, "A": A, "E": E, "shape": sh})
     for op, tl, tr in itertools.product(ARITH + CMP + BIT, KINDS, KINDS):
         cells.append({"t": "op", "op": op, "tl": tl, "tr": tr})
+    for (A1, E1), (A2, E2), c1, c2 in itertools.product(WIDEN, WIDEN, STEPS, STEPS):
+        cells.append({"t": "seq", "A1": A1, "E1": E1, "ctx1": c1, "A2": A2, "E2": E2, "ctx2": c2})
+    for ctx, A1, A2, E in itertools.product(ARR_CTXS, KINDS, KINDS, KINDS):
+        cells.append({"t": "arr", "ctx": ctx, "A1": A1, "A2": A2, "E": E})
     return cells
+
+
+def cell_kinds(c):
+    """kinds of the value-carrying parameters of a cell's function."""
+    return {"conv": lambda: [c["A"]], "op": lambda: [c["tl"], c["tr"]]}.get(c["t"], lambda: [c["A1"], c["A2"]])()
+
+
+def nout(c):
+    """results reported per operand tuple."""
+    return 2 if c["t"] in ("seq", "arr") else 1
 
 
 def cell_id(c):
     if c["t"] == "conv":
         return f"{c['ctx']}:{c['A']}->{c['E']}:{c['shape']}"
+    if c["t"] == "seq":
+        return f"seq:{c['ctx1']}:{c['A1']}->{c['E1']};{c['ctx2']}:{c['A2']}->{c['E2']}"
+    if c["t"] == "arr":
+        return f"arr:{c['ctx']}:({c['A1']},{c['A2']})->{c['E']}"
     return f"op:{c['tl']} {c['op']} {c['tr']}"
 
 
 def pair_tag(c):
+    if c["t"] == "seq":
+        return f"{c['A1']}_to_{c['E1']}+{c['A2']}_to_{c['E2']}"
+    if c["t"] == "arr":
+        return f"array_{c['A1']}_{c['A2']}_as_{c['E']}"
     return f"{c['A']}_to_{c['E']}" if c["t"] == "conv" else f"{c['tl']}_{c['tr']}"
 
 
@@ -116,10 +161,20 @@ def cell_source(c, rt=None):
         else:
             body = f"    return {e}\n"
         return f"@guppy\ndef {{n}}(a: {A}) -> {E}:\n{body}"
+    if c["t"] == "seq":
+        body = "".join(STEPS[c["ctx" + i]].format(x=x, v=v, E=c["E" + i], z="0.0" if c["E" + i] == "float" else "0")
+                       for i, x, v in (("1", "x", "a"), ("2", "y", "b")))
+        return f"@guppy\ndef {{n}}(a: {c['A1']}, b: {c['A2']}) -> tuple[{c['E1']}, {c['E2']}]:\n{body}    return x, y\n"
+    if c["t"] == "arr":
+        return (f"@guppy\ndef {{n}}(a: {c['A1']}, b: {c['A2']}, k: int) -> {c['E']}:\n"
+                + ARR_CTXS[c["ctx"]].format(E=c["E"]))
     return f"@guppy\ndef {{n}}(a: {c['tl']}, b: {c['tr']}) -> {rt or 'None'}:\n    return a {c['op']} b\n"
 
 
-HELPERS = "".join(f"@guppy\ndef id_{k}(p: {k}) -> {k}:\n    return p\n\n" for k in KINDS)
+HELPERS = ("".join(f"@guppy\ndef id_{k}(p: {k}) -> {k}:\n    return p\n\n" for k in KINDS)
+           + 'ElemT = guppy.type_var("ElemT", copyable=True, droppable=True)\n\n'
+           + "@guppy\ndef pick_elem(xs: array[ElemT, 2], k: int) -> ElemT:\n    return xs[k]\n\n"
+           + "".join(f"@guppy\ndef take_{k}(xs: array[{k}, 2], k: int) -> {k}:\n    return xs[k]\n\n" for k in KINDS))
 
 _probe_cache = {}
 
@@ -258,6 +313,41 @@ def oracle(c, pair):
     return "ok", wrap_s(r), 0
 
 
+def outputs(c, pair):
+    """sequence / array-literal cells: per reported result (result type, source kind, source value,
+    oracle entry) with oracle entry = ("ok", expected, ulps) | ("skip", why)."""
+    if c["t"] == "seq":
+        items = [(c["E1"], c["A1"], pair[0]), (c["E2"], c["A2"], pair[1])]
+    else:
+        items = [(c["E"], c["A1"], pair[0]), (c["E"], c["A2"], pair[1])]
+    res = []
+    for E, A, v in items:
+        if (c["t"] == "arr" and c["ctx"].startswith("gen") and A == "nat" and v >= I63 and E == "float"
+                and "int" in (c["A1"], c["A2"])):
+            # the inferred element type may be int: nat -> int -> float, first step not representable
+            res.append((E, A, v, ("skip", "unrep:nat>=2^63 -> int")))
+            continue
+        w = conv(v, A, E)
+        res.append((E, A, v, ("skip", "unrep:nat>=2^63 -> int") if w is UNREP else ("ok", w, 0)))
+    return res
+
+
+def judge_multi(c, pair, obs):
+    """sequence / array-literal cells -> list of (bucket, detail), one per disagreeing result."""
+    bad = []
+    pre = "seqvalue" if c["t"] == "seq" else "arrvalue"
+    for j, ((E, A, v, o), ob) in enumerate(zip(outputs(c, pair), obs)):
+        if o[0] == "skip" or ob is None:
+            continue
+        what = f"{describe(c, pair)}, result {j} ({A}({v!r}) as {E})"
+        bucket = f"{pre}.{A}_to_{E}.{vclass(v, A)}"
+        if isinstance(ob, tuple) and ob and ob[0] == "panic":
+            bad.append((bucket + ".panic", f"{what}: program panics ({ob[1]}); statement gives {o[1]!r}"))
+        elif not same(ob, o[1], E, o[2]):
+            bad.append((bucket, f"{what}: observed {ob!r}, statement gives {o[1]!r}"))
+    return bad
+
+
 def vclass(v, kind):
     if kind == "float":
         return "float"
@@ -274,7 +364,7 @@ def subject(c):
     """(position, narrower kind, wider kind) of the coerced operand of a cell, or None."""
     if c["t"] == "conv":
         return (0, c["A"], c["E"]) if c["A"] != c["E"] else None
-    if c["tl"] == c["tr"]:
+    if c["t"] != "op" or c["tl"] == c["tr"]:  # sequence / array cells: two subjects, see outputs()
         return None
     return (0, c["tl"], c["tr"]) if RANK[c["tl"]] < RANK[c["tr"]] else (1, c["tr"], c["tl"])
 
@@ -294,6 +384,8 @@ def describe(c, pair):
         return f"{k}({v!r})"
     if c["t"] == "conv":
         return f"{cell_id(c)} with a = {lit(pair[0], c['A'])}"
+    if c["t"] in ("seq", "arr"):
+        return f"{cell_id(c)} with a = {lit(pair[0], c['A1'])}, b = {lit(pair[1], c['A2'])}"
     return f"{lit(pair[0], c['tl'])} {c['op']} {lit(pair[1], c['tr'])}"
 
 
@@ -320,7 +412,7 @@ def build_program(units):
     for k, (c, rt, pairs) in enumerate(units):
         top.append(cell_source(c, rt).format(n=f"c{k}"))
         body.append(f'result("u", {k})')
-        kinds = [c["A"]] if c["t"] == "conv" else [c["tl"], c["tr"]]
+        kinds = cell_kinds(c)
         elems = []
         for i, kd in enumerate(kinds):
             t, b, e = _arr(f"{'xy'[i]}s{k}", kd, [p[i] for p in pairs])
@@ -328,13 +420,19 @@ def build_program(units):
             body.extend(b)
             elems.append(e)
         body.append(f"for i in range({len(pairs)}):")
-        body.append(f'    result("r", c{k}({", ".join(elems)}))')
+        if c["t"] == "seq":
+            body += [f"    p{k}, q{k} = c{k}({', '.join(elems)})", f'    result("r", p{k})', f'    result("r", q{k})']
+        elif c["t"] == "arr":
+            body += [f'    result("r", c{k}({", ".join(elems)}, {j}))' for j in (0, 1)]
+        else:
+            body.append(f'    result("r", c{k}({", ".join(elems)}))')
     return (runner.PRELUDE + IMPORTS + "\n" + "\n".join(top) + "\n@guppy\ndef main() -> None:\n"
             + "\n".join("    " + ln for ln in body) + "\n")
 
 
 def run_units(units):
-    """-> per unit (observations: list aligned with pairs, entries = value | ("panic", msg) | None),
+    """-> per unit (observations: list aligned with pairs, entries = value | ("panic", msg) | None;
+    for cells reporting two results per tuple a list of two such entries, or None),
     problem (kind, message, src) or None"""
     from vlib import runner
 
@@ -358,21 +456,37 @@ def run_units(units):
             res[k] = (res[k][0], ("stream", f"expected ('u', {k}) at {pos}, got {stream[pos]}", src))
             return res
         pos += 1
+        n = nout(c)
         for i in range(len(pairs)):
-            if pos >= len(stream):
+            got = []
+            while len(got) < n and pos < len(stream):
+                if stream[pos][0] != "r":
+                    res[k] = (res[k][0], ("stream", f"expected tag r at {pos}, got {stream[pos]}", src))
+                    return res
+                got.append(stream[pos][1])
+                pos += 1
+            if got:
+                res[k][0][i] = got[0] if n == 1 else got + [None] * (n - len(got))
+            if len(got) < n:
                 break
-            if stream[pos][0] != "r":
-                res[k] = (res[k][0], ("stream", f"expected tag r at {pos}, got {stream[pos]}", src))
-                return res
-            res[k][0][i] = stream[pos][1]
-            pos += 1
+
+    def open_slot(o):
+        return o is None or (isinstance(o, list) and None in o)
+
     if out.kind == "panic":
-        # the first pair without an observation is the one that panicked
+        # the first result without an observation is the one that panicked
         for k, (obs, _) in enumerate(res):
-            if None in obs:
-                obs[obs.index(None)] = ("panic", out.message[:200])
+            hit = next((i for i, o in enumerate(obs) if open_slot(o)), None)
+            if hit is not None:
+                mark = ("panic", out.message[:200])
+                if nout(units[k][0]) == 1:
+                    obs[hit] = mark
+                else:
+                    slot = obs[hit] if obs[hit] is not None else [None] * nout(units[k][0])
+                    slot[slot.index(None)] = mark
+                    obs[hit] = slot
                 break
-    elif pos != len(stream) or any(None in o for o, _ in res):
+    elif pos != len(stream) or any(open_slot(o) for obs, _ in res for o in obs):
         res[-1] = (res[-1][0], ("stream", f"stream has {len(stream)} entries, plan consumed {pos}", src))
     return res
 
@@ -397,6 +511,27 @@ def static_verdict(c):
     cid = cell_id(c)
     if p[0] == "crash":
         return "crash", None, ("crash." + p[1], f"{cid}: compiler crashed\n{p[2]}"), ["static:crash"]
+    if c["t"] == "seq":
+        if p[0] == "ok":
+            return "accepted", None, None, ["static:seq_accepted"]
+        return "rejected", None, ("widening.rejected.sequence", f"{cid}: rejected ({p[1]}); each step alone is a widening "
+                                  f"of a variable\n{p[2]}"), ["static:seq_REJECTED"]
+    if c["t"] == "arr":
+        E, As = c["E"], (c["A1"], c["A2"])
+        wide = [A for A in As if RANK[A] > RANK[E]]
+        if p[0] == "ok":
+            if wide:
+                return "accepted", E, (f"narrowing.accepted.array_element.{wide[0]}_to_{E}",
+                                       f"{cid}: accepted although the {wide[0]} element comes back as {E} (implicit "
+                                       f"narrowing)"), ["static:narrowing_ACCEPTED"]
+            return "accepted", E, None, ["static:arr_same_type_accepted" if As == (E, E) else "static:arr_widening_accepted"]
+        if wide:
+            return "rejected", None, None, ["static:arr_narrowing_rejected", "error:" + p[1]]
+        if As == (E, E):
+            return "rejected", None, (f"identity.rejected.array_element.{E}", f"{cid}: rejected ({p[1]})\n{p[2]}"), ["static:arr_identity_REJECTED"]
+        # widening inside an array literal: the statement's contexts are assignments, arguments,
+        # returns and operands of the numeric expression itself -> observation only
+        return "rejected", None, None, [f"observation:widening_not_applied_to_array_{c['ctx']}", "error:" + p[1]]
     if c["t"] == "conv":
         A, E, sh = c["A"], c["E"], c["shape"]
         if RANK[A] > RANK[E]:
@@ -433,13 +568,16 @@ def replay(case):
     if case.get("pair") is None or status != "accepted":
         return None
     pair = tuple(case["pair"])
-    kinds = [c["A"]] if c["t"] == "conv" else [c["tl"], c["tr"]]
+    kinds = cell_kinds(c)
     pair = tuple(float(v) if k == "float" else int(v) for v, k in zip(pair, kinds))
     (obs, problem), = run_units([(c, rt, [pair])])
     if problem:
         if problem[0] in ("crash", "invalid", "rejected"):
             return f"nonexec.{problem[0]}.{pair_tag(c)}", f"{cell_id(c)}: {problem[1]}"
         return None
+    if nout(c) > 1:
+        bad = judge_multi(c, pair, obs[0] or [])
+        return bad[0] if bad else None
     return judge(c, rt, pair, obs[0])
 
 
@@ -491,6 +629,8 @@ def strategies():
         """strategy of operand tuples of a cell (1-tuple for conv cells)."""
         if c["t"] == "conv":
             return st.tuples(gen[c["A"]])
+        if c["t"] in ("seq", "arr"):
+            return st.tuples(gen[c["A1"]], gen[c["A2"]])
         s = subject(c)
         op = c["op"]
         pos, nk, wk = s
@@ -511,7 +651,12 @@ def strategies():
 def core_pairs(c):
     """fixed boundary core of a cell (always evaluated)."""
     if c["t"] == "conv":
-        return [(v,) for v in {"nat": NAT_B, "int": INT_B, "float": FLOAT_B}[c["A"]]]
+        return [(v,) for v in BOUNDARY[c["A"]]]
+    if c["t"] in ("seq", "arr"):
+        # every boundary value of either kind occurs, on a diagonal (the offset keeps same-kind
+        # tuples from being (v, v) only)
+        b1, b2 = BOUNDARY[c["A1"]], BOUNDARY[c["A2"]]
+        return [(b1[i % len(b1)], b2[(i + 5) % len(b2)]) for i in range(max(len(b1), len(b2)))]
     s = subject(c)
     pos, nk, wk = s
     op = c["op"]
@@ -555,6 +700,32 @@ def worker(ctx):
     for c in mine:
         cid = cell_id(c)
         status, rt, viol, labs = static_verdict(c)
+        if c["t"] in ("seq", "arr"):
+            coerces = c["t"] == "seq" or (c["A1"], c["A2"]) != (c["E"], c["E"])
+            labels = labs + (["ctx:sequence", f"seq:{c['A1']}->{c['E1']};{c['A2']}->{c['E2']}", f"seqctx:{c['ctx1']};{c['ctx2']}"]
+                             if c["t"] == "seq" else ["ctx:array_" + c["ctx"], f"arr:({c['A1']},{c['A2']})->{c['E']}"])
+            ctx.case(("static", cid), coerces, labels=labels,
+                     sample=({"cell": cid, "checker": status, "source": cell_source(c).format(n="cell")}
+                             if status != "accepted" else None))
+            for lab in labs:
+                if lab.startswith("observation:"):
+                    observations.setdefault(lab, []).append(cid)
+            if viol:
+                ctx.violation(viol[0], {"cell": c, "pair": None, "source": cell_source(c).format(n="cell")}, viol[1])
+            if status != "accepted" or viol:
+                continue
+            drawn = []
+            if P["pairs"]:
+                harness.hyp_search(ctx, pairs_of(c), drawn.append, max_examples=P["pairs"], chunk=P["pairs"], extra_seed=("cell", cid))
+            seen, sel = set(), []
+            for p in core_pairs(c) + drawn:
+                p = tuple(float(v) if k == "float" else v for v, k in zip(p, cell_kinds(c)))
+                key = tuple(fbits(v) if isinstance(v, float) else v for v in p)
+                if key not in seen:
+                    seen.add(key)
+                    sel.append(p)
+            units.append((c, rt, sel))
+            continue
         s = subject(c)
         pairlab = (f"pair:{s[1]}->{s[2]}" if s else "pair:same_type")
         ctxlab = "ctx:" + (c["ctx"] if c["t"] == "conv" else ("op_same" if s is None else ("op_left" if s[0] == 0 else "op_right")))
@@ -635,6 +806,25 @@ def worker(ctx):
                 if ob is None:
                     ctx.label("not_evaluated_after_panic")
                     continue
+                if nout(c) > 1:
+                    outs = outputs(c, p)
+                    judged = [(E, A, v) for (E, A, v, o), b in zip(outs, ob) if o[0] == "ok" and b is not None]
+                    labs = ["run:" + ("sequence" if c["t"] == "seq" else "array_literal")]
+                    for (E, A, v, o), b in zip(outs, ob):
+                        if b is None:
+                            labs.append("not_evaluated_after_panic")
+                        elif o[0] == "skip":
+                            labs.append("judged:no(unrepresentable)")
+                            unrep_obs.setdefault(cid, f"{describe(c, p)} observed {b!r}")
+                        else:
+                            labs += ["judged:yes", "value:" + ("boundary" if A in BOUND and v in BOUND[A] else "random"),
+                                     f"vclass:{A}.{vclass(v, A)}"] + ([f"run_pair:{A}->{E}"] if A != E else [])
+                    ctx.case((cid, [repr(x) for x in p]), any(A != E for E, A, _ in judged), labels=sorted(set(labs)),
+                             sample={"case": describe(c, p), "observed": repr(ob),
+                                     "statement": [repr(o[1]) if o[0] == "ok" else o[1] for _, _, _, o in outs]})
+                    for bucket, detail in judge_multi(c, p, ob):
+                        ctx.violation(bucket, {"cell": c, "pair": list(p), "source": build_program([(c, rt, [p])])}, detail)
+                    continue
                 o = oracle(c, p)
                 pos, nk = (s[0], s[1]) if s else (0, c["A"] if c["t"] == "conv" else c["tl"])
                 labs = ["value:" + ("boundary" if nk in BOUND and p[pos] in BOUND[nk] else "random"),
@@ -666,7 +856,11 @@ SPEC = harness.Spec(
     PROP, worker, replay,
     rule=("cells enumerated every run: {assign, call argument, return} x 9 (actual, expected) pairs over nat/int/float x 5 "
           "shapes of the actual expression (variable = the judged form; call result, +a, conditional, tuple subscript "
-          "secondary) and 18 operators x 9 (left, right) operand type pairs. Each cell is first judged statically "
+          "secondary), 18 operators x 9 (left, right) operand type pairs, 81 sequence cells (one body doing two strict "
+          "widenings in a row: 3 x 3 ordered widening pairs x {assignment, argument, operand} per step, both values "
+          "reported) and 108 array-literal cells (`array(a, b)`, 9 element type pairs x element type E it is used as x "
+          "{annotated assignment, array[E, 2] parameter, generic-element parameter returned directly / via a variable}, "
+          "both elements reported). Each cell is first judged statically "
           "(accepted / rejected / result type = one case), then every accepted cell with a coerced operand is run on a "
           "fixed boundary core + Hypothesis-drawn values (boundary set U random magnitudes; for operators the wider "
           "operand from an operator-specific safe set / neighbours of the converted value), all values entering as "
@@ -685,6 +879,12 @@ SPEC = harness.Spec(
         "operand classes of C04's confirmed findings (int // % with negative divisor, >> of a negative int), zero divisors, "
         "negative or > 64 integer exponents (ipow loops), int/int true division above 2^53 and float // % (no ffloor in the "
         "installed selene) are not evaluated",
+        "array-literal cells: only 'never narrows' (accepted although an element type is wider than the type the element "
+        "comes back as), acceptance of same-type cells and the values of accepted cells are judged; a widening not applied "
+        "inside an array literal is an observation; nat >= 2^63 in an inferred-element-type cell that also holds an int is "
+        "not judged (may pass through int)",
+        "sequence cells must be accepted because each step alone is a judged widening of a variable (assignment, argument) or "
+        "a judged operator pair (`v + 0`, `v + 0.0`)",
         "same-type operator cells are judged for acceptance and result type only (no coercion happens; values are C04's subject)",
         "float operands travel as nat bit patterns + bytecast (the toolchain's JSON float reader is not round-trip exact); the "
         "identity cells (A == E) verify the transport",
